@@ -290,6 +290,47 @@ pub fn group_scheme<S: LinMap>(rec: &mut Rec, max_len: usize) {
             }
         }
     }
+    // (2b) ordered pairs in ONE commit call: every ordered pair of coefficient vectors in {0,1,r1}^4 (all supports
+    // of up to four terms - equal size with different interior terms included) committed together; each member
+    // must still be its own key-defined sum (nothing may be carried over from the previous member of the call)
+    {
+        let alpha3 = [S::F::zero(), S::F::one(), rho::<S::F>(rec.seed, 1)];
+        let vecs: Vec<Vec<S::F>> = (0..81usize).map(|code| (0..4).map(|k| alpha3[code / 3usize.pow(k) % 3]).collect()).collect();
+        let polys4: Vec<S::P> = vecs.iter().map(|v| S::poly_from(v, &cfg)).collect();
+        let mut expect4: Vec<Option<Vec<u8>>> = Vec::new();
+        for p in polys4.iter() {
+            expect4.push(S::expected(&keys, &lp::<S>("e", p.clone(), None, None)).ok().map(|c| ser(&c)));
+        }
+        for (i, pu) in polys4.iter().enumerate() {
+            let id = format!("{}/pair-in-one-call/{}/first={}", S::NAME, cfg.id(), i);
+            if !rec.take(&id) {
+                continue;
+            }
+            rec.dim("scheme", S::NAME);
+            let mut bad: Option<String> = None;
+            for (j, pv) in polys4.iter().enumerate() {
+                rec.count_points(1);
+                rec.op(1);
+                match do_commit::<S>(&keys.ck, &[lp::<S>("u", pu.clone(), None, None), lp::<S>("v", pv.clone(), None, None)], None) {
+                    Ok((cs, _)) => {
+                        let ok = Some(ser(cs[0].commitment())) == expect4[i] && Some(ser(cs[1].commitment())) == expect4[j];
+                        if !ok && bad.is_none() {
+                            bad = Some(format!("vectors #{} then #{} over {{0,1,r1}}^4 (base-3 digits = coefficients of the four reference monomials)", i, j));
+                        }
+                    }
+                    Err(o) => {
+                        if bad.is_none() {
+                            bad = Some(format!("commit failed: {}", o.short()));
+                        }
+                    }
+                }
+            }
+            rec.class(if bad.is_none() { "pairs-match" } else { "pairs-differ" });
+            if let Some(b) = bad {
+                viol(rec, S::NAME, "commit/member-differs-from-key-map", &id, format!("two polynomials committed in one call: a member is not its key-defined sum: {}", b));
+            }
+        }
+    }
     // (3) call histories: every sequence (length <= 3) of members over a five-letter alphabet in one
     // commit call; every non-hiding member's commitment must still be the naive key-defined sum,
     // whatever was committed before it in the same call.
@@ -735,6 +776,37 @@ where
                 }
             }
             rec.sample(&format!("{}-root", S::NAME), id.clone());
+        }
+        // members of ONE commit call: the commitment (root and matrix dimensions) of a polynomial is a function of the
+        // polynomial and the key alone - it does not depend on what was committed before it in the same call
+        let pick: Vec<usize> = if polys.len() <= 10 { (0..polys.len()).collect() } else { let n = polys.len(); vec![0, 1, n / 3, n / 2, n - 6, n - 5, n - 4, n - 3, n - 2, n - 1] };
+        let mut alone: BTreeMap<usize, Vec<u8>> = BTreeMap::new();
+        for i in pick.iter().copied() {
+            for j in pick.iter().copied() {
+                let id = format!("{}/root-in-one-call/{}/{}+{}", S::NAME, cfg.id(), polys[i].0, polys[j].0);
+                if !rec.take(&id) {
+                    continue;
+                }
+                rec.dim("scheme", S::NAME);
+                rec.op(3);
+                for k in [i, j] {
+                    if !alone.contains_key(&k) {
+                        if let Ok((c, _)) = do_commit::<S>(&keys.ck, &[lp::<S>("p", polys[k].1.clone(), None, None)], None) {
+                            alone.insert(k, ser(c[0].commitment()));
+                        }
+                    }
+                }
+                match do_commit::<S>(&keys.ck, &[lp::<S>("a", polys[i].1.clone(), None, None), lp::<S>("b", polys[j].1.clone(), None, None)], None) {
+                    Ok((cs, _)) => {
+                        let ok = alone.get(&i) == Some(&ser(cs[0].commitment())) && alone.get(&j) == Some(&ser(cs[1].commitment()));
+                        rec.class(if ok { "root-matches" } else { "root-differs" });
+                        if !ok {
+                            viol(rec, S::NAME, "commit/member-differs-from-single-commit", &id, "a polynomial committed together with another one in one call gets another commitment (root or matrix dimensions) than on its own".into());
+                        }
+                    }
+                    Err(o) => viol(rec, S::NAME, "commit/in-domain", &id, format!("commit of two polynomials failed: {}", o.short())),
+                }
+            }
         }
     }
 }
